@@ -53,6 +53,9 @@ def enumerate_faults(world, opts, facts):
                     look = value.replace("a", "\u0430", 1) if "a" in value else (value.replace("e", "\u0435", 1) if "e" in value else None)
                     if look and look not in pool:
                         outv.append(("lookalike", look))
+                    wide = "".join(chr(ord(ch) + 0xFEE0) if "!" <= ch <= "~" else ("\u3000" if ch == " " else ch) for ch in value)
+                    if wide != value and wide not in pool:
+                        outv.append(("fullwidth", wide))  # typed through an input method editor: compatibility forms of the same letters
                     return outv
 
                 for fld, pool, cat in (("exchange", world["exchanges"], "exchange"), ("from_exchange", world["exchanges"], "exchange"), ("to_exchange", world["exchanges"], "exchange"),
